@@ -181,7 +181,9 @@ def _c14_async(scratch, tier, log):
     return tierb_async.run_all(scratch, what=("delay", "reset"))
 _c14_async.__name__ = "tierb_async_C14"
 PROPS["C14"]["stages"].append(_c14_async)
+PROPS["C14"]["stages"].append(tierb_misc.fft_filter_stage)
 PROPS["C14"].setdefault("assumptions", []).extend(tierb_async.ASSUME_TEXT[:2] + [
     "C14 is decided in a structural form: evaluation instants (first instant -L/2 + 1/ratio from the constructor/reset obligations, spacing 1/ratio from the C06 "
-    "obligations) against the reported value; that the polynomial / FFT kernel is centred on its evaluation instant is the C08 window obligation resp. an assumption (FFT)",
+    "obligations) against the reported value; that the polynomial kernel is centred on its evaluation instant is the C08 window obligation; for the FFT adapters the filter geometry "
+    "(exactly fft_size_in taps laid out from tap 0 of the block) is a contract of FftResampler::new, and that make_sincs returns a kernel symmetric about len/2 is assumed (L-centre)",
     "the sinc resamplers are not claimed (known finding F7)"])
